@@ -132,3 +132,62 @@ def same_time_value(a, b):
 def opt_obj(x):
     """(is_none, object) of an Optional[object] attribute value"""
     return isnone(x), val(x)
+
+
+# ------------------------------------------------------------------ regex match arguments
+CURRENT_IT = [None]     # set by the verifier while a clause is evaluated symbolically
+
+
+def _mv(m):
+    return m.attrs["match"]
+
+
+def g_present(m, name):
+    mv = _mv(m)
+    if hasattr(mv, "present"):
+        return mv.present[name]
+    return mv.group(name) is not None
+
+
+def g_truthy(m, name):
+    mv = _mv(m)
+    if hasattr(mv, "present"):
+        return And(mv.present[name], mv.nonempty[name])
+    return bool(mv.group(name))
+
+
+def g_int(m, name):
+    mv = _mv(m)
+    if hasattr(mv, "ints"):
+        return mv.ints[name]
+    s = mv.group(name)
+    return int(s) if s is not None else 0
+
+
+def g_len(m, name):
+    mv = _mv(m)
+    if hasattr(mv, "present"):
+        return mv.length(CURRENT_IT[0], name)
+    s = mv.group(name)
+    return len(s) if s is not None else 0
+
+
+def g_has_letter(m, name, letter):
+    """the (present) group text contains the letter, case-insensitively"""
+    mv = _mv(m)
+    if hasattr(mv, "present"):
+        import z3
+        from pyvc.interp import GroupVal
+        st = CURRENT_IT[0].group_text(GroupVal(mv, name))
+        full = z3.Full(z3.ReSort(z3.StringSort()))
+        cs = sorted({letter.lower(), letter.upper()})
+        return z3.InRe(st.t, z3.Concat(full, z3.Union(*[z3.Re(z3.StringVal(c)) for c in cs]), full))
+    s = mv.group(name)
+    return s is not None and letter.lower() in s.lower()
+
+
+def group_names(m):
+    mv = _mv(m)
+    if hasattr(mv, "present"):
+        return set(mv.present.keys())
+    return set(mv.re.groupindex.keys()) if hasattr(mv, "re") else set(mv.names)
